@@ -67,6 +67,7 @@ class _Alarm(BaseException):
 
 
 def _on_alarm(signum, frame):
+    signal.alarm(2)          # re-arm: an exception raised inside a destructor or trace callback is swallowed by the interpreter
     raise _Alarm()
 
 
